@@ -146,28 +146,41 @@ def check_fixed(ctx, classes):
             p = A.param_names(r[1])
             ok = len(rets) == 1 and A.norm(rets[0].value) == f"{p[0]}.from_buffer_copy({p[1]})"
         ctx.check("C15.S", f"{c.name}:decoded-by-own-struct", ok, f"{c.name}.deserialize_from is not cls.from_buffer_copy(raw)", c.loc())
-        # constructor
+        # constructor, executed by the checker's interpreter (super().__init__ of a ctypes structure fills the declared fields in order):
+        # with a distinct value for every parameter, the type byte holds TYPE.value and every declared field named like a parameter
+        # holds that parameter's value - however the constructor is written (helpers, loops over keyword arguments, ...)
         r = repo.lookup(c, "__init__")
         if r is None or r[0] is base or not repo.is_subclass(r[0], base):
             ctx.error("C15.S", f"{c.name}: no constructor found")
             continue
         k, init = r
-        sup = [x for x in A.calls_in(init) if isinstance(x.func, ast.Attribute) and x.func.attr == "__init__" and isinstance(x.func.value, ast.Call) and dotted(x.func.value.func) == "super"]
-        ok = len(sup) == 1 and len(sup[0].args) == 1 and A.norm(sup[0].args[0]) == "self.TYPE.value" and not sup[0].keywords
-        ctx.check("C15.S", f"{c.name}:type-byte-is-TYPE", ok, f"{c.name}.__init__ does not store self.TYPE.value in the first field (super().__init__(self.TYPE.value))", c.loc(init))
-        params = set(A.param_names(init))
-        own = [f for f in fields[1:]]
-        assigns = {}
-        for st in A.body_nodes(init):
-            if isinstance(st, ast.Assign) and len(st.targets) == 1 and A.is_self_attr(st.targets[0]):
-                assigns.setdefault(st.targets[0].attr, []).append(st.value)
-        for fname, ft, fb in own:
-            vs = assigns.get(fname, [])
-            ok = len(vs) == 1 and (isinstance(vs[0], ast.Name) and vs[0].id == fname and fname in params or
-                                   isinstance(vs[0], ast.Attribute) and vs[0].attr == "value" and isinstance(vs[0].value, ast.Name) and vs[0].value.id == fname and fname in params)
+        from .. import circuit as C
+        params = [p_ for p_ in A.param_names(init)[1:]]
+        vals = {p_: 11 + 3 * i_ for i_, p_ in enumerate(params)}
+        # a parameter the constructor reads as an enumeration member (`p.value`) is given one (with the same value)
+        enum_like = {x.value.id for x in ast.walk(init) if isinstance(x, ast.Attribute) and x.attr == "value" and isinstance(x.value, ast.Name) and x.value.id in vals}
+        o = C.Obj(c, {}, "self")
+        outcome = None
+        try:
+            C.Interp(repo, ev, C.Scenario(), c).call_function(k.module, init, [], {p_: (EnumMember("model:Enum", f"M{v_}", v_) if p_ in enum_like else v_) for p_, v_ in vals.items()}, self_obj=o)
+        except C.EvalRaise as ex_:
+            outcome = f"raises {ex_}"
+        except AnalysisError as ex_:
+            ctx.error("C15.S", f"{c.name}.__init__ cannot be evaluated: {ex_}")
+            continue
+        tla = repo.lookup_attr(c, "TYPE")
+        tval = ev.try_eval(tla[2], tla[0].module) if tla is not None and tla[2] is not None else None
+        tval = tval.value if isinstance(tval, EnumMember) else tval
+        got_t = o.fields.get(fields[0][0])
+        ctx.check("C15.S", f"{c.name}:type-byte-is-TYPE", outcome is None and tval is not None and got_t == tval,
+                  f"{c.name}.__init__ leaves {got_t!r} in the type byte `{fields[0][0]}`; expected TYPE.value = {tval!r} ({outcome or 'constructor completed'})", c.loc(init))
+        for fname, ft, fb in fields[1:]:
+            gv = o.fields.get(fname)
+            gv = gv.value if isinstance(gv, EnumMember) else gv
+            ok = outcome is None and fname in vals and gv == vals[fname]
             ctx.check("C15.S", f"{c.name}.{fname}:assigned-from-parameter", ok,
-                      f"{c.name}.__init__ assigns field {fname} from {[src(v) for v in vs]}; expected its own parameter {fname}", c.loc(init),
-                      sample={"class": c.name, "field": fname})
+                      f"{c.name}({', '.join(f'{p_}={v_}' for p_, v_ in vals.items())}) leaves field {fname} = {o.fields.get(fname)!r}; expected its own parameter {fname}"
+                      f"{'' if fname in vals else ' (the constructor has no such parameter)'}", c.loc(init), sample={"class": c.name, "field": fname})
     ctx.anchor("C15.S", "fixed-layout message classes", n, 7)
 
 
@@ -259,20 +272,8 @@ def optional_codec(ctx, c) -> Optional[str]:
               sample={"discriminant": dfield, "payload": vfield})
     if not ok:
         return None
-    # accessor: property/method that returns None when D == A and self.V when D == B
-    acc = None
-    for name, fn in c.methods.items():
-        if name.startswith("__"):
-            continue
-        rets = A.returns(fn)
-        if any(isinstance(r.value, ast.Constant) and r.value.value is None for r in rets) and any(A.is_self_attr(r.value) for r in rets if r.value is not None):
-            acc = (name, fn)
-    if acc is None:
-        ctx.check("C15.H", f"{c.name}:type-aware-accessor", False, f"{c.name} has no accessor that maps the null discriminant to None", c.loc())
-        return None
-    name, fn = acc
-    env = {"self": ClassRef(c.qualname)}
-    # the accessor is evaluated for both discriminant values (whatever the chain is written as)
+    # accessor: the property / parameterless method that, evaluated for both discriminant values (whatever it is written as), gives
+    # None for the null discriminant and the payload field for the other one
     PAYLOAD = G.Sym("payload")
     cenv = {}
     for k_ in repo.mro(c):
@@ -281,12 +282,25 @@ def optional_codec(ctx, c) -> Optional[str]:
                 v_ = ev.try_eval(val_, k_.module)
                 if isinstance(v_, int):
                     cenv[f"self.{an}"] = v_
-    dec = {}
-    for dv in (dfield[1], dfield[2]):
-        try:
-            dec[dv] = G.returned_value(fn, dict(cenv, **{f"self.{dfield[0]}": dv, f"self.{vfield[0]}": PAYLOAD}))
-        except Unknown as ex_:
-            dec[dv] = f"<not evaluable: {ex_}>"
+    cands = {}
+    for name, fn in c.methods.items():
+        if name.startswith("__") or len(A.param_names(fn)) != 1 or c.setters.get(name) is fn:
+            continue
+        dec = {}
+        for dv in (dfield[1], dfield[2]):
+            try:
+                dec[dv] = G.returned_value(fn, dict(cenv, **{f"self.{dfield[0]}": dv, f"self.{vfield[0]}": PAYLOAD}))
+            except Unknown as ex_:
+                dec[dv] = f"<not evaluable: {ex_}>"
+        cands[name] = (fn, dec)
+    mirrors = [n_ for n_, (f_, d_) in cands.items() if d_.get(dfield[1], 0) is None and d_.get(dfield[2]) is PAYLOAD]
+    # a candidate that reads the payload or produces None at all is "the accessor" for reporting purposes
+    near = [n_ for n_, (f_, d_) in cands.items() if any(v_ is None or v_ is PAYLOAD for v_ in d_.values())]
+    if not mirrors and not near:
+        ctx.check("C15.H", f"{c.name}:type-aware-accessor", False, f"{c.name} has no accessor that maps the null discriminant to None", c.loc())
+        return None
+    name = (mirrors or near)[0]
+    fn, dec = cands[name]
     a_ok = dec.get(dfield[1], 0) is None
     b_ok = dec.get(dfield[2]) is PAYLOAD
     ctx.check("C15.H", f"{c.name}.{name}:mirror-of-constructor", a_ok and b_ok,
@@ -354,6 +368,16 @@ def check_variable(ctx, classes):
         reads = []  # (offset, type value, var name)
         varmap = {}
         unknown = False
+        def view_offset(e):
+            """offset of a view of the input: a name of `views`, or <view>[k:] written in place"""
+            if isinstance(e, ast.Name) and e.id in views:
+                return views[e.id]
+            if isinstance(e, ast.Subscript) and isinstance(e.slice, ast.Slice) and e.slice.upper is None and e.slice.step is None:
+                base_ = view_offset(e.value)
+                k_ = (_eval_len(ctx, m, e.slice.lower) if e.slice.lower is not None else 0) if base_ is not None else None
+                return base_ + k_ if base_ is not None and k_ is not None else None
+            return None
+
         for st in rd.body:
             if isinstance(st, ast.Expr) and isinstance(st.value, ast.Constant):
                 continue
@@ -366,14 +390,14 @@ def check_variable(ctx, classes):
                         break
                     views[tname] = views[v.value.id] + k
                     continue
-                if isinstance(v, ast.Call) and isinstance(v.func, ast.Attribute) and v.func.attr == "from_buffer_copy" and len(v.args) == 1 and A.norm(v.args[0]) in views:
+                if isinstance(v, ast.Call) and isinstance(v.func, ast.Attribute) and v.func.attr == "from_buffer_copy" and len(v.args) == 1 and view_offset(v.args[0]) is not None:
                     t = ev.try_eval(v.func.value, m, varmap)
-                    reads.append((views[A.norm(v.args[0])], t, tname, v.func.value))
+                    reads.append((view_offset(v.args[0]), t, tname, v.func.value))
                     varmap[tname] = ("read", len(reads) - 1)
                     continue
                 for x in ast.walk(v):
-                    if isinstance(x, ast.Call) and isinstance(x.func, ast.Attribute) and x.func.attr == "from_buffer_copy" and len(x.args) == 1 and A.norm(x.args[0]) in views:
-                        reads.append((views[A.norm(x.args[0])], None, None, x.func.value))
+                    if isinstance(x, ast.Call) and isinstance(x.func, ast.Attribute) and x.func.attr == "from_buffer_copy" and len(x.args) == 1 and view_offset(x.args[0]) is not None:
+                        reads.append((view_offset(x.args[0]), None, None, x.func.value))
                 varmap[tname] = ("expr", v)
                 continue
             if isinstance(st, ast.Return):
